@@ -1,5 +1,5 @@
 (* Correspondence for C09 (uamiv stream): reference codec <-> library, both directions. *)
-From PNC Require Export Base.Util Base.Words Model.Uamiv Model.YearEnd Model.Lbdy Model.One3d Model.TempHp Model.Wind Model.CloudRain.
+From PNC Require Export Base.Util Base.Words Model.Uamiv Model.YearEnd Model.Lbdy Model.One3d Model.TempHp Model.Wind Model.CloudRain Model.Landuse.
 Local Open Scope Z_scope.
 
 Record ucase := Case {
@@ -399,7 +399,54 @@ Definition cregion (c : ccase) : nat :=
     if (0 <? ds) && (ds mod c_timesize cc other =? 0)
        && ((other =? 5) || negb (ds mod c_timesize cc 5 =? 0)) then 20%nat else 0%nat.
 
+(* Ninth kind of case: land-use files, Model/Landuse.v *)
+Record lucase := LUCase {
+  luc_c : landuse; luc_dec : bool;            (* the first 8 payload bytes decode as UTF-8 (bytes.decode() in the harness) *)
+  luc_ref : list word; luc_cut : Z;
+  luc_open_ok : bool; luc_view : luview; luc_py_ok : bool;
+  luc_w_ok : bool; luc_written : list word; luc_rr_ok : bool     (* the library re-opens what it wrote *)
+}.
+Definition lu_kv_eqb (a b : list word * list word) : bool := zlist_eqb (fst a) (fst b) && zlist_eqb (snd a) (snd b).
+Definition luview_eqb (a b : luview) : bool :=
+  Bool.eqb (lv_new a) (lv_new b) && (lv_nland a =? lv_nland b) && list_eqb lu_kv_eqb (lv_vars a) (lv_vars b).
+Definition landuse_eqb (a b : landuse) : bool :=
+  Bool.eqb (lu_new a) (lu_new b) && (lu_nland a =? lu_nland b) && (lu_rows a =? lu_rows b) && (lu_cols a =? lu_cols b)
+  && zlist_eqb (lu_fland a) (lu_fland b) && list_eqb lu_kv_eqb (lu_opts a) (lu_opts b).
+Definition lu_ascii (w : word) : bool :=
+  (0 <=? w) && (w / 16777216 <? 128) && ((w / 65536) mod 256 <? 128) && ((w / 256) mod 256 <? 128) && (w mod 256 <? 128).
+Definition luwhole (c : lucase) : bool := luc_cut c =? 4 * Z.of_nat (length (luc_ref c)).
+Definition lu_reopens (dec : bool) (c : landuse) (ws : list word) : bool :=
+  match lu_mm_read dec (lu_rows c) (lu_cols c) ws (4 * Z.of_nat (length ws)) with Ok _ => true | Err => false end.
+(* F: reference encoder == Coq encoder; the abstract predicate is consistent (ASCII bytes decode); the reader model predicts
+   the library on the whole file and on the cut; the writer model predicts the written words and whether they re-open *)
+Definition lucheckF (c : lucase) : bool :=
+  let cc := luc_c c in
+  zlist_eqb (lu_enc cc) (luc_ref c)
+  && (negb (lu_ascii (nth 1 (luc_ref c) 0) && lu_ascii (nth 2 (luc_ref c) 0)) || luc_dec c)
+  && match lu_mm_read (luc_dec c) (lu_rows cc) (lu_cols cc) (firstn (Z.to_nat ((luc_cut c + 3) / 4)) (luc_ref c)) (luc_cut c) with
+     | Ok v => luc_open_ok c && luview_eqb v (luc_view c)
+               && (negb (luwhole c)
+                   || (luc_w_ok c && zlist_eqb (luc_written c) (lu_write v)
+                       && Bool.eqb (luc_rr_ok c) (lu_reopens (lv_new v || luc_dec c) cc (lu_write v))))
+     | Err => negb (luc_open_ok c)
+     end.
+Definition lucheckS (c : lucase) : bool :=
+  let cc := luc_c c in
+  if luwhole c then
+    luc_py_ok c && luc_open_ok c && luview_eqb (luc_view c) (lu_view_of cc) && luc_w_ok c
+    && match lu_dec (lu_rows cc) (lu_cols cc) (luc_written c) with Some c' => landuse_eqb c' cc | None => false end
+  else
+    negb (luc_open_ok c)
+    || (let k := (length (lv_vars (luc_view c)) - 1)%nat in
+        luc_py_ok c && (1 <=? length (lv_vars (luc_view c)))%nat && (k <=? length (lu_opts cc))%nat
+        && luview_eqb (luc_view c) (lu_view_of (lu_truncate k cc))).
+(* region 16: whole files whose first 8 payload bytes are no UTF-8 (the style sniff decodes them) and the reader raised.
+   (Region 22, the writer emitting LAI / TOPO before the land-use fractions, was retired by 58a734f.) *)
+Definition luregion (c : lucase) : nat :=
+  if luwhole c && negb (luc_dec c) && negb (luc_open_ok c) then 16%nat else 0%nat.
+
 Inductive case_t :=
+| LUD (c : lucase)
 | CD (c : ccase)
 | WD (c : wcase)
 | TD (c : tcase)
@@ -422,4 +469,5 @@ Definition check (c : case_t) : verdict :=
   | HD c => (hcheckF c, hcheckS c, hregion c)
   | WD c => (wcheckF c, wcheckS c, wregion c)
   | CD c => (ccheckF c, ccheckS c, cregion c)
+  | LUD c => (lucheckF c, lucheckS c, luregion c)
   end.
